@@ -264,7 +264,17 @@ class Engine(ExprMixin, CallMixin, BuiltinMixin, VerifyMixin):
     def exec_stmt(self, s, st):
         mark = len(self.raised)
         try:
-            outs = self._exec_stmt(s, st)
+            starts = [st]
+            if self.contract is not None and self.contract.ghost_on and not isinstance(s, (ast.For, ast.While, ast.If, ast.Try, ast.With)):
+                for item in self.contract.ghost_on:
+                    if len(item) > 2 and item[2] == "before" and self.match_pattern(item[0], s):
+                        nxt = []
+                        for cur in starts:
+                            nxt.extend(o.st for o in self.exec_block(self.parse_stmts(item[1]), cur) if o.kind == "normal")
+                        starts = nxt
+            outs = []
+            for cur in starts:
+                outs.extend(self._exec_stmt(s, cur))
         except OutsideSubset as e:
             if not getattr(e, "located", False):
                 e.args = ("%s:%s: %s" % (self.module.rel if self.module else "?", getattr(s, "lineno", "?"), e.args[0]),)
@@ -285,6 +295,8 @@ class Engine(ExprMixin, CallMixin, BuiltinMixin, VerifyMixin):
         outs = [o]
         for item in self.contract.ghost_on:
             pat, ghost = item[0], item[1]
+            if len(item) > 2 and item[2] == "before":
+                continue
             if self.match_pattern(pat, s):
                 nxt = []
                 for oo in outs:
